@@ -56,9 +56,9 @@ INVS = ["StateOnlyIfComplete", "FilesOnlyIfComplete", "FinalAtomic", "PrevUntouc
 TIER = {
     # name -> (MaxChunks, MaxFaults, Attempts)
     "quick": dict(configs=[("s4f2a1", 4, 2, 1), ("s3f1a2", 3, 1, 2)], sms=["mem", "file"], workers=4,
-                  sweep_n=[1, 3], timeout=600, devs=["NoCountCheck", "NoTruncate", "ApplyBeforeRename"]),
+                  sweep_n=[1, 3], timeout=600, devs=["NoCountCheck", "ApplyBeforeRename"], vacuity=False),
     "thorough": dict(configs=[("s4f2a2", 4, 2, 2), ("s4f3a1", 4, 3, 1)], sms=["mem", "file"], workers=8,
-                     sweep_n=[1, 2, 3, 4], timeout=2400, devs=DEVS),
+                     sweep_n=[1, 2, 3, 4], timeout=2400, devs=DEVS, vacuity=True),
 }
 
 ERR_CLASS = [("No chunk received for", "timeout"), ("Leader changed during transfer", "leader-changed"),
@@ -104,7 +104,7 @@ def run_tlc_emit(wd, name, chunks, faults, attempts, workers, timeout):
                       behaviours=len(behs), secs=round(dt, 1), actions=cov)
 
 
-def run_dev_checks(wd, workers, devs):
+def run_dev_checks(wd, workers, devs, vacuity):
     """every named deviation must violate an invariant; the happy path must be reachable"""
     res = {}
     for d in devs:
@@ -114,6 +114,8 @@ def run_dev_checks(wd, workers, devs):
         if not bad:
             raise dv.ToolError("deviation %s violates no invariant (vacuous invariants?)\n%s" % (d, out[-1500:]))
         res[d] = bad[0]
+    if not vacuity:      # quick tier: the emitted behaviours themselves contain successful transfers (checked below)
+        return res
     cfg = cfg_file(wd, "vac", 2, 1, 1, [], False, ["NeverReplaced"])
     rc, out, dt = dv.tlc("SnapXfer", cfg, wd, workers=workers, timeout=600)
     if "Invariant NeverReplaced is violated" not in out:
@@ -367,7 +369,7 @@ def _check(prop, tier, T, wd, t0):
             for a in b:
                 if not a["edits"] and not a["crash"]:
                     a["exp"]["complete"] = False
-    devs = run_dev_checks(wd, T["workers"], T["devs"])
+    devs = run_dev_checks(wd, T["workers"], T["devs"], T["vacuity"])
     # sweep cases (crash at every poll boundary of a complete transfer, then a second transfer)
     sgroups = sweep_groups(behs)
     sweeps = {}
